@@ -144,7 +144,7 @@ PROPS = {
     "C02": s_property("C02", "translation_validation",
                       lambda seed: fams("control", "calls", "scoping", "boundary", "sequences") + exh(2) + rnd(seed, 40),
                       lambda seed: fams("control", "calls", "scoping", "boundary", "sequences", "compose", "undeclared") + exh(3) + rnd(seed, 600),
-                      kinds=("unsafe", "typing", "residue")),
+                      kinds=("unsafe", "typing", "residue", "witness")),
     "C09": s_property("C09", "translation_validation",
                       lambda seed: fams("scoping", "undeclared") + rnd(seed, 30),
                       lambda seed: fams("scoping", "undeclared", "calls") + exh(3) + rnd(seed, 300)),
